@@ -239,7 +239,8 @@ Inductive site :=
 | SSourceRead     (* reading the test case file *)
 | SNameExtract    (* the instruction-name extractor, on an instruction line *)
 | SInstrParse     (* the [parse] method of an instruction's parser *)
-| SDocParser      (* elsewhere in the document parser (unknown phase, syntax of a phase header, ...) *)
+| SSectionParser  (* the element parser of a section, outside an instruction parser (e.g. the act phase's) *)
+| SDocParser      (* elsewhere in the document parser: what leaves it (unknown phase, syntax of a phase header, ...) *)
 | SConfInstr      (* [main] of a [conf] instruction *)
 | SInstrStep      (* symbol-usages / validate-pre-sds / validate-post-setup / main of an instruction
                      of [setup], [before-assert], [assert], [cleanup] *)
@@ -247,7 +248,7 @@ Inductive site :=
 | SActStep        (* symbol-usages / validate / prepare / execute of the action to check *)
 | SSdsSetup.      (* construction of the sandbox, between the guarded blocks of the executor *)
 
-Definition all_site := [SSourceRead; SNameExtract; SInstrParse; SDocParser; SConfInstr; SInstrStep;
+Definition all_site := [SSourceRead; SNameExtract; SInstrParse; SSectionParser; SDocParser; SConfInstr; SInstrStep;
                         SActParse; SActStep; SSdsSetup].
 
 (** The accessor ([AccessorFromParts.apply]) for an exception raised while reading / parsing. *)
@@ -263,6 +264,8 @@ Definition accessor (s : site) (e : exc) : res unit :=
       try_ (chain_accessor_apply ACC_SYNTAX_ERROR)
         (try_ chain_parser_apply
            (try_ chain_doc_parser (try_ chain_seq_parsers (try_ chain_instr_parse (Raise e)))))
+  | SSectionParser =>
+      try_ (chain_accessor_apply ACC_SYNTAX_ERROR) (try_ chain_parser_apply (try_ chain_doc_parser (Raise e)))
   | SDocParser =>
       try_ (chain_accessor_apply ACC_SYNTAX_ERROR) (try_ chain_parser_apply (Raise e))
   | _ => Ret tt
